@@ -7,6 +7,7 @@ from . import i7_layout
 from . import i8_pipeline
 from . import i9_randomgen
 from . import i10_implied
+from . import i9f_fill
 
 TB_COMMON = [
     "Lean 4.33.0 kernel (thorough tier: re-checked with leanchecker)",
@@ -60,7 +61,7 @@ REGISTRY = {
         "trusted_base": TB_COMMON + ["the printed table is parsed by splitting on ' | ' (level names without that separator)", "float formatting of percentages is compared numerically (1e-9), never as text"],
         "assumptions": ["level names are strings"],
     },
-    "C05": dict(_design_prop(OD2.oracle_c05, quick=50), correspondence=[i9_randomgen.corr_randomgen]),
+    "C05": dict(_design_prop(OD2.oracle_c05, quick=50), correspondence=[i9_randomgen.corr_randomgen, i9f_fill.corr_fill]),
     "C18": dict(_design_prop(OD2.oracle_c18, quick=30), correspondence=[i7_layout.corr_sharing],
                 oracle=[OD2.oracle_c18, OD2.oracle_c18_blocks]),
     "C19": _design_prop(OD2.oracle_c19),
@@ -76,10 +77,10 @@ REGISTRY = {
                 oracle=[OD.oracle_c01_latin, OD.oracle_c01, i7_layout.oracle_kinarow]),
     "C02": dict(_design_prop(OD.oracle_c02, quick=50), correspondence=[i8_pipeline.corr_pipeline]),
     "C03": dict(_design_prop(OD.oracle_c03, quick=50), correspondence=[i8_pipeline.corr_pipeline]),
-    "C04": dict(_design_prop(OD.oracle_c04, quick=50), correspondence=[i9_randomgen.corr_randomgen],
+    "C04": dict(_design_prop(OD.oracle_c04, quick=50), correspondence=[i9_randomgen.corr_randomgen, i9f_fill.corr_fill],
                 oracle=[OD.oracle_c04_latin, OD.oracle_c04]),
-    "C06": dict(_design_prop(OD.oracle_c06, quick=50), correspondence=[i9_randomgen.corr_randomgen]),
-    "C07": dict(_design_prop(OD.oracle_c07, quick=45), correspondence=[i8_pipeline.corr_pipeline, i9_randomgen.corr_randomgen]),
+    "C06": dict(_design_prop(OD.oracle_c06, quick=50), correspondence=[i9_randomgen.corr_randomgen, i9f_fill.corr_fill]),
+    "C07": dict(_design_prop(OD.oracle_c07, quick=45), correspondence=[i8_pipeline.corr_pipeline, i9_randomgen.corr_randomgen, i9f_fill.corr_fill]),
     "C08": dict(_design_prop(OD.oracle_c08, quick=50), correspondence=[i8_pipeline.corr_pipeline],
                 oracle=[OD.oracle_c08_latin, OD.oracle_c08]),
     "C09": _design_prop(OD.oracle_c09),
